@@ -91,6 +91,34 @@ CHECKS["C12"] = dict(
     note="That Python's re computes what parse_split / parse_greedy say is validated (exhaustively on short strings), not proved. 'Entries stored under it can be found again' is carried by the C05 storage refinement and checked here on the real store.",
     ref="6/C12")
 
+RUN_NOTE = "Model: call DAGs (callees have smaller ids), values = id + sum of successful sub-calls, failures memoized as outcomes and caught by callers; exceptions propagating through callers, ignore_result and remote runners are outside the model. "
+CHECKS["C02"] = dict(
+    technique="Coq proof (memoizing evaluator of call DAGs = un-memoized reference semantics on every consistent store; second call runs nothing; cache transparency from C05) + differential runs of generated DAGs on all backends + recursive result-domain generator with type-aware equality",
+    text="Theorems over Runner/Run.v for every call DAG, every store consistent with it and every context: a memoized call returns exactly what an un-memoized execution returns (values and memoized exceptions), a later call executes no body, consistency is preserved; "
+         "with C05's theorem the same holds behind a cache of any size, and forgetting removes exactly that call. Implementation: DAGs on memory / filesystem / filesystem+cache (two sizes) vs the model; generated values over the documented result domain "
+         "(incl. bool vs int, date vs timestamp, float32 vs float64, -0.0/NaN, empty containers, non-ASCII, numpy dtypes/shapes, pandas objects, partitions, results larger than the cache) x backends x {normal, ignore_result, force_local}: body counts, equality and type of first and later values, "
+         "recorded result type vs value read back, forget; exception record/replay for rebuildable / non-rebuildable / function-local / nested / not-to-be-memoized classes.",
+    note=RUN_NOTE + "Pickle / pandas / numpy fidelity is an oracle for the model (modelled, not verified) and is what the value-domain part samples.",
+    ref="6/C02")
+CHECKS["C10"] = dict(
+    technique="Coq proof (the memento returned by the memoizing evaluator equals a store-independent specification of the call tree, for all programs and all consistent stores; batch = element-wise) + differential runs over subsets of pre-memoized sub-calls + scheduled concurrent scenario",
+    text="Theorem provenance_exact: for every call DAG, every consistent store and context, the recorded (or found) memento lists exactly the direct sub-calls in order with their keys and exactly the functions invoked transitively beneath the call, itself included; hence identical whatever was memoized before "
+         "(computed, found before the run, found by the batch pre-check, failing), single or batch. Implementation: generated DAGs with repeated / batched / failing sub-calls and context overrides x all (or sampled) subsets of sub-calls memoized beforehand x backends, compared with the model and with the exact tree; "
+         "plus the case 'found inside the per-call mutex' under a deterministic two-thread schedule.",
+    note=RUN_NOTE + "Resource handles are exercised by C11's generator only, not by this model.",
+    ref="6/C10")
+CHECKS["C15"] = dict(
+    technique="Coq proof (flipping 'make the sub-calls as one batch' anywhere leaves the whole run result unchanged: outcomes, store, executions, mementos, for all programs and stores) + root-level call_batch / map_over_range vs individual calls on twin stores",
+    text="Theorem batch_eq_elementwise (no assumption on the store): bulk pre-check then element-by-element equals one-after-the-other for any mix of memoized, new, duplicated and failing elements; elements are transparent and run at most once. "
+         "Implementation: batch-heavy DAGs vs the model; root-level batches (0-6 elements, duplicates, failures) x pre-memoized subsets x raise_first_exception x context args compared with individual calls on a twin store by position, store state and executions; map_over_range over lists, ranges and one-shot iterables with partial prefixes.",
+    note=RUN_NOTE, ref="6/C15")
+CHECKS["C16"] = dict(
+    technique="Coq proof (the effective context is a component of every key; recorded sub-call keys = inherit-or-override of the caller's context, for all programs / stores) + context-heavy DAGs vs the model + direct separation / prevention checks",
+    text="Theorems: nested calls are recorded under the caller's effective context unless the edge overrides it (the explicit empty override included), entries stored under one context are invisible under another, calls are transparent and served per context. "
+         "Implementation: DAGs where most edges override the context (incl. on batched edges) under two root contexts on three backends vs the model; results under different contexts must be computed and then served separately; prevented calls must refuse nested calls with RuntimeError whether or not they are memoized.",
+    note=RUN_NOTE + "'Bodies never receive context arguments' is observed (a generated body receiving one would raise TypeError), not modelled; with_prevent_further_calls is checked on the implementation only.",
+    ref="6/C16")
+
 NOT_YET = {}
 
 
